@@ -708,19 +708,31 @@ func onlyViaLoopHeader(fn *ssa.Function, b *ssa.BasicBlock) bool {
 			}
 		}
 	}
-	for _, x := range fn.Blocks {
-		if !path.InCycle(x) {
+	// outermost natural loops
+	var loops []map[*ssa.BasicBlock]bool
+	var heads []*ssa.BasicBlock
+	for _, h := range fn.Blocks {
+		if l := path.NaturalLoop(h); len(l) > 0 {
+			loops = append(loops, l)
+			heads = append(heads, h)
+		}
+	}
+	for i, l := range loops {
+		outer := true
+		for j, m := range loops {
+			if i != j && m[heads[i]] && len(m) > len(l) {
+				outer = false
+			}
+		}
+		if !outer || l[b] {
 			continue
 		}
-		loop := path.LoopBlocks(x)
-		for i, s := range x.Succs {
-			_ = i
-			if loop[s] || !canReach[s] {
-				continue
-			}
-			// x -> s leaves the loop towards b: x must be the loop header, i.e. x dominates every block of the loop
-			for y := range loop {
-				if !x.Dominates(y) {
+		for x := range l {
+			for _, s := range x.Succs {
+				if l[s] || !canReach[s] {
+					continue
+				}
+				if x != heads[i] {
 					return false
 				}
 			}
